@@ -46,10 +46,11 @@ MANIFEST_TEXT = ('Every table of 0..3 (quick) / 0..4 (thorough) rows drawn from 
 MANIFEST_NOTE = ('Trusted: NumPy, CPython str/int/float, gzip module, models/tables.py. Row menus bound the value space.')
 TECHNIQUE = 'bounded exhaustive enumeration of write histories (all compositions) against a canonical-serialisation model'
 
-KINDS = ['buffered', 'open_w', 'gz', 'append', 'stream']
-TYPE_NAMES = ['bed3', 'bed6', 'bedgraph', 'narrowpeak', 'bed12', 'fasta', 'fastq', 'sam', 'gtf', 'vcf', 'vcf_read']
+KINDS = ['buffered', 'open_w', 'gz', 'append', 'gz_append', 'stream']
+TYPE_NAMES = ['bed3', 'bed6', 'bedgraph', 'narrowpeak', 'bed12', 'fasta', 'fastq', 'sam', 'gtf', 'vcf', 'vcf_read',
+              'vcf_typed']
 SUFFIX = {'bed3': '.bed', 'bed6': '.bed', 'bedgraph': '.bdg', 'narrowpeak': '.narrowPeak', 'bed12': '.bed', 'fasta': '.fa',
-          'fastq': '.fq', 'sam': '.sam', 'gtf': '.gtf', 'vcf': '.vcf', 'vcf_read': '.vcf'}
+          'fastq': '.fq', 'sam': '.sam', 'gtf': '.gtf', 'vcf': '.vcf', 'vcf_read': '.vcf', 'vcf_typed': '.vcf'}
 
 
 def bounds(tier, seed):
@@ -68,8 +69,8 @@ def menu(tname, tier, seed):
         k = 4 if tier == 'quick' else 6
         r = (seed % 3) if tier == 'quick' else 0
         return [rows[(i + 2 * r) % len(rows)] for i in range(k)]
-    spec = T.TYPES['vcf' if tname == 'vcf_read' else tname]
-    rows = spec['rows']
+    spec = T.TYPES['vcf' if tname in ('vcf_read', 'vcf_typed') else tname]
+    rows = TYPED_ROWS if tname == 'vcf_typed' else spec['rows']
     k = 3 if tier == 'quick' else 4
     return rows[:k] if len(rows) >= k else rows
 
@@ -94,7 +95,7 @@ def buffer_type_for(tname):
     if tname == 'vcf':
         from bionumpy.io.vcf_buffers import VCFWithInfoAsStringBuffer
         return VCFWithInfoAsStringBuffer
-    if tname == 'vcf_read':
+    if tname in ('vcf_read', 'vcf_typed'):
         from bionumpy.io.vcf_buffers import VCFBuffer
         return VCFBuffer
     if tname == 'fasta':
@@ -130,7 +131,7 @@ def parse_output(tname, data):
                 raise ValueError('layout: record markers')
             rows.append([a[1:], s, q])
         return [], rows
-    comment = {'vcf': '#', 'vcf_read': '#', 'sam': '@'}.get(tname)
+    comment = {'vcf': '#', 'vcf_read': '#', 'vcf_typed': '#', 'sam': '@'}.get(tname)
     header = [l for l in lines if comment and l.startswith(comment)]
     body = [l for l in lines if not (comment and l.startswith(comment))]
     if comment and lines[:len(header)] != header:
@@ -146,24 +147,25 @@ def parse_output(tname, data):
 
 def canonical_problem(tname, data, rows):
     """None if `data` canonically serialises `rows`, else a short description."""
-    spec = T.TYPES['vcf' if tname == 'vcf_read' else tname]
+    spec = T.TYPES['vcf' if tname in ('vcf_read', 'vcf_typed') else tname]
     try:
         header, out = parse_output(tname, data)
     except ValueError as e:
         return str(e)
     if len(out) != len(rows):
         return 'record count %d != %d' % (len(out), len(rows))
-    if tname in ('vcf', 'vcf_read'):
+    if tname in ('vcf', 'vcf_read', 'vcf_typed'):
         n_chrom = sum(1 for h in header if h.startswith('#CHROM'))
         if n_chrom > 1 or (rows and n_chrom != 1):
             return 'header emitted %d times' % n_chrom
     for i, (cells, row) in enumerate(zip(out, rows)):
         kinds = [k for _, k in spec['fields']]
-        if tname in ('vcf', 'vcf_read'):
+        if tname in ('vcf', 'vcf_read', 'vcf_typed'):
             cells = cells[:8]
         if len(cells) != len(kinds):
             return 'row %d has %d columns, expected %d' % (i, len(cells), len(kinds))
-        for (fname, kind), cell, v in zip(spec['fields'], cells, row):
+        flds = spec['fields'][:7] if tname == 'vcf_typed' else spec['fields']   # typed INFO text is not pinned
+        for (fname, kind), cell, v in zip(flds, cells, row):
             if kind == 'qual':
                 ok = tuple(ord(c) - 33 for c in cell) == tuple(v)
             else:
@@ -204,7 +206,7 @@ def compositions(n):
 
 
 def make_piece(tname, rows, src_table=None, idx=None):
-    if tname == 'vcf_read':
+    if tname in ('vcf_read', 'vcf_typed'):
         return src_table[idx]
     return T.build_table('vcf' if tname == 'vcf' else tname, rows)
 
@@ -220,7 +222,7 @@ def write_with(kind, tname, piece_tables, scratch):
         for p in piece_tables:
             w.write(p)
         return b.getvalue()
-    path = os.path.join(scratch, 'out' + SUFFIX[tname] + ('.gz' if kind == 'gz' else ''))
+    path = os.path.join(scratch, 'out' + SUFFIX[tname] + ('.gz' if kind in ('gz', 'gz_append') else ''))
     if os.path.exists(path):
         os.unlink(path)
     bt = B if tname in ('bed6', 'bed12', 'vcf') else None
@@ -229,7 +231,7 @@ def write_with(kind, tname, piece_tables, scratch):
         for p in piece_tables:
             w.write(p)
         w.close()
-    elif kind == 'append':
+    elif kind in ('append', 'gz_append'):
         w = bnp.open(path, 'w', buffer_type=bt)
         if piece_tables:
             w.write(piece_tables[0])
@@ -244,14 +246,25 @@ def write_with(kind, tname, piece_tables, scratch):
         w.close()
     with open(path, 'rb') as f:
         data = f.read()
-    if kind == 'gz':
+    if kind in ('gz', 'gz_append'):
         data = gzip.decompress(data) if data else b''
     return data
 
 
-def vcf_source(rows, lazy):
-    """table as yielded by the VCF reader for a canonical file holding `rows` (header without INFO declarations)"""
+TYPED_HEADER = (b'##fileformat=VCFv4.2', b'##INFO=<ID=DP,Number=1,Type=Integer,Description="d">',
+                b'##INFO=<ID=AF,Number=A,Type=Float,Description="d">', b'##INFO=<ID=DB,Number=0,Type=Flag,Description="d">',
+                b'#CHROM\tPOS\tID\tREF\tALT\tQUAL\tFILTER\tINFO')
+TYPED_ROWS = [('c', 0, '.', 'A', 'T', '.', 'PASS', 'DP=5;AF=0.5;DB'), ('chr10', 12344, 'rs1', 'AC', 'G,GT', '40', '.', 'DP=12;AF=0.25,0.75'),
+              ('2', 9, 'x', 'G', 'ACGT', '29.5', 'q10', 'DP=1;AF=0.125'), ('c', 99, '.', 'T', 'C', '.', 'PASS', 'DP=7;AF=0.5;DB')]
+
+
+def vcf_source(rows, lazy, typed=False):
+    """table as yielded by the VCF reader for a canonical file holding `rows`"""
     f = FORMATS['vcf_header']
+    if typed:
+        class _F:
+            header = TYPED_HEADER
+        f = _F
     lines = ['\t'.join([r[0], str(r[1] + 1)] + list(r[2:])) for r in rows]
     data = b'\n'.join(f.header) + b'\n' + ('\n'.join(lines) + '\n').encode() if rows else b'\n'.join(f.header) + b'\n'
     return make_reader(data, buffer_type_for('vcf_read'), lazy).read()
@@ -260,20 +273,23 @@ def vcf_source(rows, lazy):
 def check_table(res, tname, row_ids, tier, seed, scratch, deadline):
     m = menu(tname, tier, seed)
     rows = [m[i] for i in row_ids]
-    spec = T.TYPES['vcf' if tname == 'vcf_read' else tname]
+    spec = T.TYPES['vcf' if tname in ('vcf_read', 'vcf_typed') else tname]
     kinds = [k for _, k in spec['fields']]
     fields = [n for n, _ in spec['fields']]
+    if tname == 'vcf_typed':
+        fields = fields[:7]     # typed INFO is compared by value in C02; here the seven fixed columns
+        kinds = kinds[:7]
     n = len(rows)
     base_feats = {'type': tname}
     src = None
     src_modes = [None]
-    if tname == 'vcf_read':
+    if tname in ('vcf_read', 'vcf_typed'):
         if n == 0:
             return
         src_modes = [False, True]
     for src_lazy in src_modes:
-        if tname == 'vcf_read':
-            src = vcf_source(rows, src_lazy)
+        if tname in ('vcf_read', 'vcf_typed'):
+            src = vcf_source(rows, src_lazy, typed=tname == 'vcf_typed')
         reference = None
         for comp in compositions(n):
             for empty_at in [None] + list(range(len(comp) + 1)):
@@ -325,11 +341,14 @@ def check_table(res, tname, row_ids, tier, seed, scratch, deadline):
                                     res.fail('read-back-raises', case, dict(feats, lazy=lazy, exc=exc_name(e)), expected=rows,
                                              observed=repr(e)[:300], tb=tb_string(e))
                                     continue
-                                exp = [tuple(observe.norm(v) for v in r) for r in rows]
+                                exp = [tuple(observe.norm(v) for v in r[:len(fields)]) for r in rows]
                                 if not T.rows_close(kinds, back, exp):
                                     res.fail('read-back-differs', case, dict(feats, lazy=lazy), expected=exp, observed=back)
+                    if n == 0 and tname in ('vcf', 'vcf_read', 'vcf_typed'):
+                        # an empty total: whether a header-only file or an empty file results is not stated
+                        res.outcome('ok:empty-total')
+                        continue
                     if reference is not None and data != reference:
-                        # header-only difference for an empty total is not judged (statement: header exactly once)
                         res.fail('piecewise-differs-from-single-write', case, feats,
                                  expected=reference.decode('latin1')[:600], observed=data.decode('latin1')[:600])
                         res.outcome('differs')
